@@ -113,6 +113,17 @@ fn corpus() -> Vec<(Env, Vec<(T, T)>)> {
         (r(vec![(113, v("M"))]), r(vec![(113, v("M2"))])),
         (T::opt(v("N")), T::opt(v("N2"))), (v("M"), v("M2")), (v("N"), v("N2")),
     ]));
+    // the same with the back edge under opt, queried under an outer opt probe and then again
+    let e: Env = vec![
+        ("N".into(), r(vec![(108, T::opt(v("M"))), (120, T::p("nat"))])), ("M".into(), r(vec![(110, v("N"))])),
+        ("N2".into(), r(vec![(108, T::opt(v("M2"))), (120, T::p("text"))])), ("M2".into(), r(vec![(110, v("N2"))])),
+    ];
+    out.push((e, vec![
+        (r(vec![(112, T::opt(v("N"))), (113, v("M"))]), r(vec![(112, T::opt(v("N2"))), (113, v("M2"))])),
+        (r(vec![(112, v("M")), (113, T::opt(v("N")))]), r(vec![(112, v("M2")), (113, T::opt(v("N2")))])),
+        (T::Func(vec![], vec![T::opt(v("N")), v("M")], vec![]), T::Func(vec![], vec![T::opt(v("N2")), v("M2")], vec![])),
+        (v("M"), v("M2")), (T::opt(v("N")), T::opt(v("N2"))), (v("M"), v("M2")),
+    ]));
     // lists: nat list <: int list, both directions via opt
     let e: Env = vec![("L".into(), T::opt(r(vec![(0, T::p("nat")), (1, v("L"))]))), ("K".into(), T::opt(r(vec![(0, T::p("int")), (1, v("K"))])))];
     out.push((e, vec![(v("L"), v("K")), (v("K"), v("L")), (v("L"), v("L"))]));
@@ -161,8 +172,58 @@ fn gen_upgrade(r: &mut Rng, cfg: &GenCfg) -> (Env, Vec<(T, T)>) {
     (all, pairs)
 }
 
+/// memo stress: a recursive environment and a copy that differs in ONE leaf, queried through same-shaped composite
+/// types that mention several definitions in different positions (under opt, in records, as function results), so
+/// that pairs are assumed, completed under assumptions, and fail late
+fn gen_memo_stress(r: &mut Rng) -> (Env, Vec<(T, T)>) {
+    let k = r.range(2, 4) as usize;
+    let names: Vec<String> = (0..k).map(|i| format!("{}", (b'A' + i as u8) as char)).collect();
+    let f = |s: &str| format!("{}_", s);
+    let leaf = |r: &mut Rng| T::p(*r.pick(&["nat", "int", "text", "bool", "null"]));
+    let mut e: Env = vec![];
+    for (i, n) in names.iter().enumerate() {
+        // every definition is a record or variant that mentions the next definition (cyclically), directly or under opt/vec
+        let nxt = T::var(&names[(i + 1) % k]);
+        let link = match r.below(4) { 0 => T::opt(nxt), 1 => T::vec(nxt), _ => nxt };
+        let mut fs = vec![(1u32, link), (2, leaf(r))];
+        if r.coin(1, 2) { let nm: &String = r.pick(&names[..]); let o = T::var(nm); fs.push((3, if r.coin(1, 2) { T::opt(o) } else { o })); }
+        if r.coin(1, 2) { fs.swap(0, 1); fs[0].0 = 1; fs[1].0 = 2; }
+        e.push((n.clone(), if r.coin(3, 4) { T::rec(fs) } else { fs.push((0, T::p("null"))); T::variant(fs) }));
+    }
+    let mut e2: Env = e.iter().map(|(n, t)| (f(n), t.rename(&f))).collect();
+    // change one leaf of one definition
+    let victim = r.below(k as u64) as usize;
+    if let T::Rec(fs) | T::Variant(fs) = &mut e2[victim].1 {
+        for fld in fs.iter_mut() { if matches!(fld.1, T::Prim(_)) { fld.1 = match &fld.1 { T::Prim("nat") => T::p(*r.pick(&["int", "text"])), T::Prim("int") => T::p("nat"), _ => T::p("nat") }; break; } }
+    }
+    let mut all = e.clone(); all.extend(e2);
+    let cfg = GenCfg { max_depth: 2, refs: r.coin(1, 3), var_bias: 9 };
+    let mut qs = vec![];
+    for _ in 0..4 {
+        let shape = loop { let t = gen_type(r, &names, 2, &cfg); if t.mentions_var() { break t } };
+        let (a, b) = (shape.clone(), shape.rename(&f));
+        if r.coin(1, 2) { qs.push((a, b)); } else { qs.push((b, a)); }
+    }
+    for n in &names { if r.coin(1, 2) { qs.push((T::var(n), T::Var(f(n)))); } }
+    (all, qs)
+}
+
 pub fn generate(thorough: bool, r: &mut Rng, em: &mut Emit) {
     let scale = if thorough { 12 } else { 1 };
+    for _ in 0..60 * scale {
+        let (e, qs) = gen_memo_stress(r);
+        let es = env_sx(&e);
+        em.stat("memo-stress");
+        for (x, y) in &qs {
+            em.case_nt("c05.sub", &[es.clone(), x.sx(), y.sx()], true);
+            em.case_nt("c05.checkall", &[es.clone(), x.sx(), y.sx()], true);
+            em.case_nt("c05.equal", &[es.clone(), x.sx(), y.sx()], true);
+        }
+        em.case_nt("c05.seq", &[es.clone(), queries_sx(&qs)], true);
+        em.case_nt("c05.seq_checkall", &[es.clone(), queries_sx(&qs)], true);
+        em.case_nt("c05.seq_equal", &[es.clone(), queries_sx(&qs)], true);
+        em.case_nt("p.c05.history", &[es.clone(), queries_sx(&qs)], true);
+    }
     let nontrivial = |x: &T, y: &T| x.mentions_var() || y.mentions_var() || x.has_opt() || y.has_opt() || x.size() + y.size() > 4;
     // ---- corpus first
     for (e, qs) in corpus() {
